@@ -34,28 +34,28 @@ def encTAO : TAO Val → Val
 
 theorem not_into_node (x : NodeOrToken Val Val) :
     call Sem.none 10 Rs.Gen.not_into_node [encNOT x] = .val (vOpt x.intoNode) [some (encNOT x)] := by
-  cases x <;> rfl
+  cases x <;> kernel_rfl
 
 theorem not_into_token (x : NodeOrToken Val Val) :
     call Sem.none 10 Rs.Gen.not_into_token [encNOT x] = .val (vOpt x.intoToken) [some (encNOT x)] := by
-  cases x <;> rfl
+  cases x <;> kernel_rfl
 
 theorem not_as_node (x : NodeOrToken Val Val) :
     call Sem.none 10 Rs.Gen.not_as_node [encNOT x] = .val (vOpt x.asNode) [some (encNOT x)] := by
-  cases x <;> rfl
+  cases x <;> kernel_rfl
 
 theorem not_as_token (x : NodeOrToken Val Val) :
     call Sem.none 10 Rs.Gen.not_as_token [encNOT x] = .val (vOpt x.asToken) [some (encNOT x)] := by
-  cases x <;> rfl
+  cases x <;> kernel_rfl
 
 /-- `as_ref` and `cloned` are re-typings: the same element comes back -/
 theorem not_as_ref (x : NodeOrToken Val Val) :
     call Sem.none 10 Rs.Gen.not_as_ref [encNOT x] = .val (encNOT x) [some (encNOT x)] := by
-  cases x <;> rfl
+  cases x <;> kernel_rfl
 
 theorem not_cloned (x : NodeOrToken Val Val) :
     call Sem.none 10 Rs.Gen.not_cloned [encNOT x] = .val (encNOT x) [some (encNOT x)] := by
-  cases x <;> rfl
+  cases x <;> kernel_rfl
 
 /-- a `Sem` in which `fmt` of a payload `v` with formatter `f` answers `show v f` -/
 def fmtSem (sh : Val → Val → Val) : Sem :=
@@ -66,7 +66,7 @@ def fmtSem (sh : Val → Val → Val) : Sem :=
 theorem not_display (sh : Val → Val → Val) (x : NodeOrToken Val Val) (f : Val) :
     call (fmtSem sh) 10 Rs.Gen.not_display [encNOT x, f] (xs := []) =
       .val (match x with | .node n => sh n f | .token t => sh t f) [] := by
-  cases x <;> rfl
+  cases x <;> kernel_rfl
 
 /-- a `Sem` in which function value `0` is `g` -/
 def appSem (g : Val → Val) : Sem :=
@@ -74,44 +74,44 @@ def appSem (g : Val → Val) : Sem :=
 
 theorem walk_map (g : Val → Val) (e : WalkEvent Val) :
     call (appSem g) 10 Rs.Gen.walk_map [encWalk e, .fn 0] (xs := []) = .val (encWalk (e.map g)) [] := by
-  cases e <;> rfl
+  cases e <;> kernel_rfl
 
 theorem tao_map (g : Val → Val) (t : TAO Val) :
     call (appSem g) 10 Rs.Gen.tao_map [encTAO t, .fn 0] (xs := []) = .val (encTAO (t.map g)) [] := by
-  cases t <;> rfl
+  cases t <;> kernel_rfl
 
 theorem tao_right_biased (t : TAO Val) :
     call Sem.none 10 Rs.Gen.tao_right_biased [encTAO t] (xs := []) = .val (vOpt t.rightBiased) [] := by
-  cases t <;> rfl
+  cases t <;> kernel_rfl
 
 theorem tao_left_biased (t : TAO Val) :
     call Sem.none 10 Rs.Gen.tao_left_biased [encTAO t] (xs := []) = .val (vOpt t.leftBiased) [] := by
-  cases t <;> rfl
+  cases t <;> kernel_rfl
 
 /-- `Iterator::next` with its `mem::replace` dance: the item and the iterator afterwards -/
 theorem tao_next (t : TAO Val) :
     call Sem.none 10 Rs.Gen.tao_next [encTAO t] = .val (vOpt t.next.1) [some (encTAO t.next.2)] := by
-  cases t <;> rfl
+  cases t <;> kernel_rfl
 
 def encHint : Nat × Option Nat → Val
   | (lo, hi) => vTuple [.nat lo, vOpt (hi.map .nat)]
 
 theorem tao_size_hint (t : TAO Val) :
     call Sem.none 10 Rs.Gen.tao_size_hint [encTAO t] = .val (encHint t.sizeHint) [some (encTAO t)] := by
-  cases t <;> rfl
+  cases t <;> kernel_rfl
 
 /-- `MaybeOwned` (how the builder holds its cache): only an owned value is given back -/
 theorem mo_into_owned (v : Val) :
     call Sem.none 10 Rs.Gen.mo_into_owned [.ctor N.MaybeOwned.Owned [v]] (xs := []) = .val (vSome v) []
     ∧ call Sem.none 10 Rs.Gen.mo_into_owned [.ctor N.MaybeOwned.Borrowed [v]] (xs := []) = .val vNone [] :=
-  ⟨rfl, rfl⟩
+  ⟨by kernel_rfl, by kernel_rfl⟩
 
 theorem mo_deref (v : Val) :
     call Sem.none 10 Rs.Gen.mo_deref [.ctor N.MaybeOwned.Owned [v]] (xs := []) = .val v []
     ∧ call Sem.none 10 Rs.Gen.mo_deref [.ctor N.MaybeOwned.Borrowed [v]] (xs := []) = .val v []
     ∧ call Sem.none 10 Rs.Gen.mo_deref_mut [.ctor N.MaybeOwned.Owned [v]] (xs := []) = .val v []
     ∧ call Sem.none 10 Rs.Gen.mo_deref_mut [.ctor N.MaybeOwned.Borrowed [v]] (xs := []) = .val v [] :=
-  ⟨rfl, rfl, rfl, rfl⟩
+  ⟨by kernel_rfl, by kernel_rfl, by kernel_rfl, by kernel_rfl⟩
 
 /-! ### `SyntaxToken` (`syntax/token.rs`)
 
@@ -167,7 +167,7 @@ theorem tok_text_eq_raw (dbg : Bool) (ka : Nat) (keya : Option Nat) (la oa : Nat
       (match textEqRaw dbg ka keya sa kb keyb sb with
        | some r => .val (.bool r) []
        | none => .panic) := by
-  cases keya <;> cases keyb <;> cases dbg <;> cases sa <;> cases sb <;> rfl
+  cases keya <;> cases keyb <;> cases dbg <;> cases sa <;> cases sb <;> kernel_rfl
 
 theorem beq_optText (a b : Option Text) : Val.beq (optText a) (optText b) = (a == b) := by
   cases a <;> cases b <;> simp [optText, vOpt, vNone, vSome, Val.beq, Val.beqL, N.Some, N.None]
@@ -190,7 +190,7 @@ theorem tok_resolve_text (k : Nat) (key : Option Nat) (l o : Nat) (st rs : Optio
       (match (match st with | some t => some t | none => (match key with | some _ => rs | none => none)) with
        | some t => .val (.text t) []
        | none => .panic) := by
-  cases st <;> cases key <;> cases rs <;> rfl
+  cases st <;> cases key <;> cases rs <;> kernel_rfl
 
 /-- `resolve_text` is the model's `tokenText` -/
 theorem tok_resolve_text_model (cfg : Cfg) (I : Interner) (i k : Nat) (key : Option Nat) (l o : Nat) (resolver : Val) :
@@ -215,7 +215,7 @@ def redSem : Sem :=
 theorem tok_text_range (k : Nat) (key : Option Nat) (l o o' : Nat) (st rs : Option Text) :
     call redSem 20 Rs.Gen.tok_text_range [encRedTok o (encTok k key l o' st rs)] (xs := []) =
       .val (vTuple [.nat o, .nat (o + l)]) [] := by
-  rfl
+  kernel_rfl
 
 /-! #### `write_debug`: the abbreviation window -/
 
@@ -262,31 +262,31 @@ def dbgLog (shown : Text) : Val :=
 theorem tok_write_debug_short (t : Text) (b21 b22 b23 b24 : Bool) (p21 p22 p23 p24 : Option Text) : (k : Nat) → k < 25 →
     call (dbgSem t k b21 b22 b23 b24 p21 p22 p23 p24) 60 Rs.Gen.tok_write_debug [.atom 1, .atom 9, .ctor 950 []] (xs := [2]) =
       .val (.ctor N.Ok [.unit]) [some (dbgLog t)]
-  | 0, _ => rfl
-  | 1, _ => rfl
-  | 2, _ => rfl
-  | 3, _ => rfl
-  | 4, _ => rfl
-  | 5, _ => rfl
-  | 6, _ => rfl
-  | 7, _ => rfl
-  | 8, _ => rfl
-  | 9, _ => rfl
-  | 10, _ => rfl
-  | 11, _ => rfl
-  | 12, _ => rfl
-  | 13, _ => rfl
-  | 14, _ => rfl
-  | 15, _ => rfl
-  | 16, _ => rfl
-  | 17, _ => rfl
-  | 18, _ => rfl
-  | 19, _ => rfl
-  | 20, _ => rfl
-  | 21, _ => rfl
-  | 22, _ => rfl
-  | 23, _ => rfl
-  | 24, _ => rfl
+  | 0, _ => by kernel_rfl
+  | 1, _ => by kernel_rfl
+  | 2, _ => by kernel_rfl
+  | 3, _ => by kernel_rfl
+  | 4, _ => by kernel_rfl
+  | 5, _ => by kernel_rfl
+  | 6, _ => by kernel_rfl
+  | 7, _ => by kernel_rfl
+  | 8, _ => by kernel_rfl
+  | 9, _ => by kernel_rfl
+  | 10, _ => by kernel_rfl
+  | 11, _ => by kernel_rfl
+  | 12, _ => by kernel_rfl
+  | 13, _ => by kernel_rfl
+  | 14, _ => by kernel_rfl
+  | 15, _ => by kernel_rfl
+  | 16, _ => by kernel_rfl
+  | 17, _ => by kernel_rfl
+  | 18, _ => by kernel_rfl
+  | 19, _ => by kernel_rfl
+  | 20, _ => by kernel_rfl
+  | 21, _ => by kernel_rfl
+  | 22, _ => by kernel_rfl
+  | 23, _ => by kernel_rfl
+  | 24, _ => by kernel_rfl
   | k + 25, h => absurd h (by omega)
 
 theorem tok_write_debug_raw (t : Text) (n : Nat) (b21 b22 b23 b24 : Bool) (p21 p22 p23 p24 : Option Text) :
